@@ -897,8 +897,8 @@ theorem tgt_of_route (e : ε) (c : Nat) (hc : c < net.n) (h : routeTy P.streams 
 include hpn heng hraw hr in
 theorem network_kahn (hns : ∀ sd ∈ P.streams, starved P.streams sd = false) (hnd : NoDrop s.log)
     (hq : Quiescent net s) (ht : s.todo = []) :
-    Kahn P inputs (fun t => if P.streams.any (fun sd => sd.name == t) then s.out.filter (fun e => P.ty e = t)
-                            else inputs.filter (fun e => P.ty e = t)) := by
+    Kahn P inputs (byType P inputs s.out) := by
+  unfold byType
   have hinv := finv_reach net inputs σ0 s hr
   have hedge := reach_edgeInv net _ s (edgeInv_init inputs σ0) hr
   have hany : ∀ sd ∈ P.streams, P.streams.any (fun sd' => sd'.name == sd.name) = true := by
@@ -1319,5 +1319,147 @@ theorem bfs_engineOK (P : Prog τ ε) (hwf : ProgWF P) (n cap : Nat) (blocking :
     EngineOK P (progNet P n cap blocking fuel) (progInit P c) c := by
   intro X hX
   exact bfs_engine_spec P hwf n cap blocking fuel c hdepth X (progInit P c) hX
+
+/-! ## with contexts = without contexts -/
+
+theorem single_wf (P : Prog τ ε) (hwf : ProgWF P) : ProgWF P.single where
+  names := by
+    simp only [Prog.single, List.pairwise_map]
+    exact hwf.names
+  typed := by
+    intro sd hsd t x o ho
+    simp only [Prog.single, List.mem_map] at hsd
+    obtain ⟨sd', hsd', he⟩ := hsd
+    subst he
+    exact hwf.typed sd' hsd' t x o ho
+
+theorem single_kahn (P : Prog τ ε) (inputs : List ε) (O : Nat → List ε) :
+    Kahn P.single inputs O ↔ Kahn P inputs O := by
+  unfold Kahn
+  simp only [Prog.single, List.mem_map]
+  constructor
+  · rintro ⟨h1, h2⟩
+    refine ⟨fun t hno => h1 t ?_, fun sd hsd => ?_⟩
+    · rintro sd ⟨sd', hsd', rfl⟩; exact hno sd' hsd'
+    · exact h2 { sd with ctx := 0 } ⟨sd, hsd, rfl⟩
+  · rintro ⟨h1, h2⟩
+    refine ⟨fun t hno => h1 t ?_, ?_⟩
+    · intro sd hsd; exact hno { sd with ctx := 0 } ⟨sd, hsd, rfl⟩
+    · rintro sd ⟨sd', hsd', rfl⟩; exact h2 sd' hsd'
+
+theorem single_not_starved (P : Prog τ ε) (hwf : ProgWF P) :
+    ∀ sd ∈ P.single.streams, starved P.single.streams sd = false := by
+  intro sd hsd
+  have hctx : ∀ a ∈ P.single.streams, a.ctx = 0 := by
+    intro a ha
+    simp only [Prog.single, List.mem_map] at ha
+    obtain ⟨a', _, rfl⟩ := ha; rfl
+  simp only [starved, decide_eq_false_iff_not, not_and, Decidable.not_not]
+  intro hown
+  unfold routeTy
+  have hmem : sd ∈ P.single.streams.filter (fun s => decide (s.src = sd.src ∧ ownerOf P.single.streams sd.src ≠ some s.ctx)) := by
+    rw [List.mem_filter]; exact ⟨hsd, by simp [hown]⟩
+  cases hl : (P.single.streams.filter (fun s => decide (s.src = sd.src ∧ ownerOf P.single.streams sd.src ≠ some s.ctx))).getLast? with
+  | none =>
+    rw [List.getLast?_eq_none_iff] at hl
+    rw [hl] at hmem; simp at hmem
+  | some a =>
+    have ha := (List.mem_filter.1 (List.mem_of_getLast? hl)).1
+    simp [hctx a ha, hctx sd hsd]
+
+theorem perm_of_filter_eq [DecidableEq ε] (ty : ε → Nat) (l1 l2 : List ε)
+    (h : ∀ t, l1.filter (fun e => ty e = t) = l2.filter (fun e => ty e = t)) : l1.Perm l2 := by
+  rw [List.perm_iff_count]
+  intro a
+  have h1 : List.count a (l1.filter (fun e => ty e = ty a)) = List.count a l1 :=
+    List.count_filter (by simp)
+  have h2 : List.count a (l2.filter (fun e => ty e = ty a)) = List.count a l2 :=
+    List.count_filter (by simp)
+  rw [← h1, ← h2, h (ty a)]
+
+theorem progNet_ok (P : Prog τ ε) (hwf : ProgWF P) (n cap : Nat) (blocking : Bool) (fuel : Nat)
+    (hctx : ∀ sd ∈ P.streams, sd.ctx < n) : ProgNet P (progNet P n cap blocking fuel) where
+  route := fun _ => rfl
+  ctxs := hctx
+  names := names_inj P hwf
+
+/-- the network of `process_inner` engines computes the meaning of the program -/
+theorem progNet_kahn (P : Prog τ ε) (hwf : ProgWF P) (n cap : Nat) (blocking : Bool) (fuel : Nat)
+    (hctx : ∀ sd ∈ P.streams, sd.ctx < n)
+    (hdepth : ∀ c st x, levelsDone P c fuel st [x] = true)
+    (hns : ∀ sd ∈ P.streams, starved P.streams sd = false)
+    (inputs : List ε) (hraw : ∀ e ∈ inputs, ∀ sd ∈ P.streams, P.ty e ≠ sd.name)
+    (s : St (Nat → τ) ε) (hr : Reach (progNet P n cap blocking fuel) (init inputs (progInit P)) s)
+    (hnd : NoDrop s.log) (hq : Quiescent (progNet P n cap blocking fuel) s) (ht : s.todo = []) :
+    Kahn P inputs (byType P inputs s.out) :=
+  network_kahn P _ (progNet_ok P hwf n cap blocking fuel hctx) inputs (progInit P)
+    (fun c _ => bfs_engineOK P hwf n cap blocking fuel c (hdepth c)) hraw s hr hns hnd hq ht
+
+/-- every output of a run is an event of some stream -/
+theorem progNet_out_typed (P : Prog τ ε) (hwf : ProgWF P) (n cap : Nat) (blocking : Bool) (fuel : Nat)
+    (hctx : ∀ sd ∈ P.streams, sd.ctx < n)
+    (hdepth : ∀ c st x, levelsDone P c fuel st [x] = true)
+    (inputs : List ε) (hraw : ∀ e ∈ inputs, ∀ sd ∈ P.streams, P.ty e ≠ sd.name)
+    (s : St (Nat → τ) ε) (hr : Reach (progNet P n cap blocking fuel) (init inputs (progInit P)) s) :
+    ∀ e ∈ s.out, ∃ sd ∈ P.streams, P.ty e = sd.name := by
+  intro e he
+  have hinv := finv_reach _ inputs (progInit P) s hr
+  rw [hinv.out] at he
+  simp only [allOut, List.mem_filterMap] at he
+  obtain ⟨o, ho, hoe⟩ := he
+  cases o with
+  | fwd c e' d k =>
+    simp only [allOutOf] at hoe; injection hoe with hoe; subst hoe
+    obtain ⟨sd, hsd, _, hn⟩ := fwd_owner P _ (progNet_ok P hwf n cap blocking fuel hctx) inputs (progInit P)
+      (fun c _ => bfs_engineOK P hwf n cap blocking fuel c (hdepth c)) hraw s hr c e' d k ho
+    exact ⟨sd, hsd, hn⟩
+  | _ => simp [allOutOf] at hoe
+
+theorem single_any (P : Prog τ ε) (t : Nat) :
+    P.single.streams.any (fun sd => sd.name == t) = P.streams.any (fun sd => sd.name == t) := by
+  simp [Prog.single, List.any_map, Function.comp_def]
+
+
+/-! ## concrete programs for the witnesses: events are (type, payload) -/
+
+/-- stream `n` re-emits every event it sees under its own type, adding the number of events it has
+seen so far to the payload (a stateful transducer): `1 = T0`, `2 = 1` (same context 0), `3 = 2` in
+context `c3` -/
+def demoProg (c3 : Nat) : Prog Nat (Nat × Nat) :=
+  { ty := fun e => e.1,
+    streams := [{ name := 1, src := 0, ctx := 0 }, { name := 2, src := 1, ctx := 0 }, { name := 3, src := 2, ctx := c3 }],
+    fn := fun n => { init := 0, step := fun k e => (k + 1, [(n, e.2 + k)]) } }
+
+theorem demo_wf (c3 : Nat) : ProgWF (demoProg c3) where
+  names := by simp [demoProg]
+  typed := by intro sd _ t x o ho; simp [demoProg] at ho; subst ho; rfl
+
+theorem demo_depth : ∀ c st x, levelsDone (demoProg 1) c 10 st [x] = true := by
+  intro c st x
+  obtain ⟨t, v⟩ := x
+  by_cases h0 : c = 0
+  · subst h0
+    rcases t with _ | _ | _ | t <;> simp [levelsDone, applyList, applyEv, demoProg]
+  · by_cases h1 : c = 1
+    · subst h1
+      rcases t with _ | _ | _ | t <;> simp [levelsDone, applyList, applyEv, demoProg]
+    · have e0 : ¬ (0 = c) := fun h => h0 h.symm
+      have e1 : ¬ (1 = c) := fun h => h1 h.symm
+      simp [levelsDone, applyList, applyEv, demoProg, e0, e1]
+
+theorem demo_depth_single : ∀ c st x, levelsDone (demoProg 1).single c 10 st [x] = true := by
+  intro c st x
+  obtain ⟨t, v⟩ := x
+  by_cases h0 : c = 0
+  · subst h0
+    rcases t with _ | _ | _ | _ | t <;> simp [levelsDone, applyList, applyEv, demoProg, Prog.single]
+  · have e0 : ¬ (0 = c) := fun h => h0 h.symm
+    simp [levelsDone, applyList, applyEv, demoProg, Prog.single, e0]
+
+/-- fan-out of a raw type to two contexts: `1 = T0` in context 0, `2 = T0` in context 1 -/
+def fanProg : Prog Nat (Nat × Nat) :=
+  { ty := fun e => e.1,
+    streams := [{ name := 1, src := 0, ctx := 0 }, { name := 2, src := 0, ctx := 1 }],
+    fn := fun n => { init := 0, step := fun k e => (k + 1, [(n, e.2 + k)]) } }
 
 end Varpulis.Ctx
